@@ -25,9 +25,9 @@ AG = "black_it.schedulers.rl.agents.epsilon_greedy:MABEpsilonGreedy"
 
 
 def run(ctx: Context) -> None:
-    reward(ctx)
-    learn(ctx)
-    policy(ctx)
+    ctx.rule(reward)
+    ctx.rule(learn)
+    ctx.rule(policy)
 
 
 def reward(ctx: Context) -> None:
